@@ -52,7 +52,7 @@ def cases(tier, seed):
                         continue
                     out.append({"N": N, "lower": [0.0] * N, "upper": [1.0] * N, "box": "unit", "obj": _fit(obj, N), "r": 2.0,
                                 "eps": eps, "iters": 5000, "m": m, "refine": False, "grp": "equal", "j": j, "de": de})
-    nl = 60 if tier == "quick" else 600
+    nl = 60 if tier == "quick" else 3000
     for i in range(nl):
         rng = scenario.rng_for(seed, "C03L", i)
         scn = scenario.gen_scenario(rng, max_iters=60, refine=False)
@@ -67,7 +67,7 @@ def cases(tier, seed):
             pat += [["set", "itersLimit", 1], ["solve"]]          # a lowered limit: nothing more may be evaluated
         scn["pattern"] = pat
         out.append(scn)
-    nr = 80 if tier == "quick" else 800
+    nr = 80 if tier == "quick" else 4000
     for i in range(nr):
         # a local refinement happens on the same Solver BEFORE a Solve that still has global budget left:
         # local trials must not be charged to itersLimit
@@ -92,7 +92,7 @@ def cases(tier, seed):
                 scn["refine"] = True
         scn["grp"] = "refined-before-solve"
         out.append(scn)
-    n = 480 if tier == "quick" else 15000
+    n = 480 if tier == "quick" else 60000
     for i in range(n):
         rng = scenario.rng_for(seed, "C03", i)
         scn = scenario.gen_scenario(rng, max_iters=500 if tier == "quick" else 3000)
